@@ -32,11 +32,65 @@ def cases(tier, seed):
     out = [{"seed": seed, "idx": i, "kind": "conservation"} for i in range(n)]
     out += [{"seed": seed, "idx": i, "kind": "halo", "halo_class": [c for c in HALO_CLASSES if c != "zero"][i % 5]} for i in range(n)]
     out += [{"seed": seed, "idx": i, "kind": "refine"} for i in range(n // 8)]
+    out += [{"seed": seed, "idx": i, "kind": "one_cell_axis"} for i in range(n // 5)]
     return out
 
 
 def run_case(case):
-    return {"conservation": conservation, "halo": halo_equiv, "refine": refine}[case["kind"]](case)
+    return {"conservation": conservation, "halo": halo_equiv, "refine": refine, "one_cell_axis": one_cell_axis}[case["kind"]](case)
+
+
+def one_cell_axis(case):
+    """(i) and (iii) on grids that are one cell wide in x or in y (a vertical-plane problem): with no halo, or one narrower than a cell,
+    the series along that axis consists of the mean alone."""
+    import numpy as np
+    from vlib import gen, solve
+
+    rng = gen.rng_for(case["seed"], "C03o", case["idx"])
+    St, nskip = gen.draw_setup(rng, halo_classes=("zero",), mode_classes=("full", "over"), even=rng.random() < 0.7)
+    if St is None:
+        return {"evals": 0, "nontrivial": False, "skipped": "no draw inside the conditioning guard"}
+    axis = "x" if case["idx"] % 2 else "y"
+    nx, ny = (1, St["ny"]) if axis == "x" else (St["nx"], 1)
+    dx, dy = St["dx"], St["dy"]
+    hk = str(rng.choice(["zero", "sub_cell", "wide"]))
+    halo = {"zero": 0.0, "sub_cell": float(rng.uniform(0.1, 0.9)) * min(dx, dy), "wide": float(rng.uniform(1.1, 3.0)) * max(dx, dy)}[hk]
+    # an odd cell count takes no even mode count: a request above the grid (every component retained) is the only valid one
+    S1 = dict(St, nx=nx, ny=ny, domain=(nx * dx, ny * dy), halo=halo, modes=(512, 512))
+    z = np.asarray(St["z"], dtype=float)
+    prec = "double" if rng.random() < 0.7 else "single"
+    levels, lkind = solve.pick_levels(rng, len(z))
+    nl = solve.nlev(levels)
+    viol, resid = [], {}
+    desc = dict(gen.describe(St), nx=nx, ny=ny, halo=halo, one_cell_axis=axis)
+    n_long = max(nx, ny)
+    j = int(rng.integers(n_long))
+    mp = (0.0, j * dy) if axis == "x" else (j * dx, 0.0)
+    _, G, F = solve.solve(S1, np.zeros((ny, nx)), levels, footprint=True, precision=prec, meas_pt=mp)
+    F = np.asarray(F).reshape(nl, ny, nx)
+    q0 = rng.uniform(0.5, 1.5, size=(ny, nx))
+    _, c, f = solve.solve(S1, q0, levels, precision=prec, meas_pt=mp if rng.random() < 0.5 else (0.0, 0.0))
+    f = np.asarray(f).reshape(nl, ny, nx)
+    for k in range(nl):
+        sabs = float(np.abs(F[k]).sum())
+        tot = float(F[k].sum())
+        resid[f"one_cell_axis_footprint_sum_{prec}"] = max(resid.get(f"one_cell_axis_footprint_sum_{prec}", 0.0), abs(tot - 1.0) / max(1.0, sabs))
+        if hk != "wide":
+            # the returned window is the whole periodic domain: weights sum to one, mean flux is the mean source
+            if not abs(tot - 1.0) <= (EX[prec] if prec == "double" else 1e-5) * max(1.0, sabs):
+                viol.append({"what": "footprint_weights_do_not_sum_to_one", "level": k, "sum": tot, "precision": prec, "setup": desc, "meas_pt": mp})
+            e = abs(float(f[k].mean()) - float(q0.mean())) / max(float(np.abs(q0).mean()), float(np.max(np.abs(f[k]))))
+            resid[f"one_cell_axis_mean_flux_{prec}"] = max(resid.get(f"one_cell_axis_mean_flux_{prec}", 0.0), e)
+            if not e <= (EX[prec] if prec == "double" else 1e-5):
+                viol.append({"what": "mean_flux_not_conserved", "level": k, "rel": e, "precision": prec, "setup": desc})
+        else:
+            # part of the weight lies in the halo: the window holds no more than all of it
+            if not (-1e-6 * max(1.0, sabs) <= tot <= 1.0 + 1e-6 * max(1.0, sabs)) and float(np.min(F[k])) >= 0.0:
+                viol.append({"what": "footprint_weights_do_not_sum_to_one", "level": k, "sum": tot, "precision": prec, "setup": desc, "meas_pt": mp,
+                             "note": "non-negative weights over part of the periodic domain sum to more than one"})
+    return {"evals": 2 * nl, "nontrivial": True, "sig": f"one|{case['idx']}", "buckets": {f"one_cell_axis:{axis}:{hk}": 1, f"prec:{prec}": 1},
+            "resid": resid, "counters": {"solver_calls": 2, "one_cell_axis_grids": 1}, "violations": viol,
+            "sample": {"setup": desc, "levels": levels}}
 
 
 def _nonzero_mean_source(rng, ny, nx):
